@@ -1,8 +1,17 @@
 // c09.cpp — the sequential exact entry points on INEXACT double weights (property C09).  Weights are given as C99 hex
 // floats (parsed with strtod: exact) and every double is printed with %a, so the comparison with the binary64 model
 // is bit-exact.  Compile with -ffp-contract=off (no fused multiply-add; x86-64 SSE2 arithmetic has no excess precision).
-//   A <alg> <graph>                alg = signed | fvs | iso ; graph = n m (u v hexw)*m
+//   A <alg> <graph>                alg = signed | fvs | iso | *_tbb ; graph = n m (u v hexw)*m
+//        for fvs / iso the line also carries the oracles of the binary64 trees model (TreesFloatModel.v):
+//        FVS = the sources of the builder's trees (the feedback vertex set in emission order, or all vertices) and
+//        ORD = the arrangement std::sort leaves the builder's candidates in, as positions of the builder's emission order
+//        (the harness runs the same builder and the same std::sort call on the same sequence: deterministic)
 //   B <use_hidden> <s> <spos> <t> <tpos> <hexlimit|-> <k signed ids> <k hidden ids> <graph>
+//   T <graph>                      every SPTree field for every source: "ALL ; T | node hexweight pred parent first | ..."
+//   C <graph>                      the three candidate collections in emission order with recorded weights (hex) + trees
+//   L <alg> <q> (<k> ids)*q <graph>   q direct calls of ShortestOddCycleLookup<.,.,false> (the builder of alg = fvs | iso,
+//                                  std::sort as in _mcb_sva_trees) on the given signed edge sets:
+//                                  "FVS .. ORD .. L q  (F hexw len ids | NF hexw len)*q"
 #include "mcb_common.hpp"
 #include <parmcb/parmcb_sva_signed.hpp>
 #include <parmcb/parmcb_sva_signed_tbb.hpp>
@@ -28,10 +37,41 @@ static void read_graph_f(Toks &t, GCase<DGraph> &c) {
     for (auto ep = boost::edges(c.g); ep.first != ep.second; ++ep.first) c.edges.push_back(*ep.first);
 }
 
+typedef boost::property_map<DGraph, boost::edge_weight_t>::type WMapD;
+typedef parmcb::SPTree<DGraph, WMapD> TreeD;
+typedef parmcb::CandidateCycle<DGraph, WMapD> CandD;
+
+// the builder of the entry point + the std::sort call of _mcb_sva_trees; prints the oracles FVS and ORD
+template<class Builder> static void build_sorted(std::ostream &out, GCase<DGraph> &c, std::vector<TreeD> &trees, std::vector<CandD> &cycles) {
+    WMapD wm = boost::get(boost::edge_weight, c.g);
+    Builder bld;
+    bld(c.g, wm, trees, cycles);
+    std::map<std::pair<size_t, size_t>, size_t> pos;          // (tree, edge id) -> position in the builder's output
+    for (size_t i = 0; i < cycles.size(); i++) {
+        auto key = std::make_pair(cycles[i].tree(), c.id(cycles[i].edge()));
+        if (pos.count(key)) throw std::runtime_error("candidate emitted twice");
+        pos[key] = i;
+    }
+    std::sort(cycles.begin(), cycles.end(), [](const auto &a, const auto &b) {
+        return a.weight() < b.weight();
+    });
+    out << " FVS";
+    for (auto &t : trees) out << " " << t.source();
+    out << " ORD";
+    for (auto &cc : cycles) out << " " << pos.at(std::make_pair(cc.tree(), c.id(cc.edge())));
+}
+
+static void trees_oracles(const std::string &alg, std::ostream &out, GCase<DGraph> &c) {
+    std::vector<TreeD> trees; std::vector<CandD> cycles;
+    if (alg == "fvs") build_sorted<parmcb::detail::FVSCyclesBuilder<DGraph, WMapD>>(out, c, trees, cycles);
+    else build_sorted<parmcb::detail::ISOCyclesBuilder<DGraph, WMapD>>(out, c, trees, cycles);
+}
+
 static void run_alg(const std::string &alg, Toks &t, std::ostream &out) {
     typedef boost::graph_traits<DGraph>::edge_descriptor Edge;
     GCase<DGraph> c; read_graph_f(t, c);
     print_oracles(out, c);
+    if (alg == "fvs" || alg == "iso") trees_oracles(alg, out, c);
     std::list<std::list<Edge>> cycles;
     auto wm = boost::get(boost::edge_weight, c.g);
     double ret;
@@ -67,11 +107,93 @@ static void run_bidir(Toks &t, std::ostream &out) {
     for (auto i : ids) out << " " << i;
 }
 
+static void print_tree_f(std::ostream &out, GCase<DGraph> &c, TreeD &tree) {
+    out << "T";
+    for (auto vp = boost::vertices(c.g); vp.first != vp.second; ++vp.first) {
+        auto v = *vp.first;
+        out << " | ";
+        auto nd = tree.node(v);
+        if (nd == nullptr) out << "0 - - -";
+        else {
+            out << "1 " << hex(nd->weight());
+            if (!nd->has_pred()) out << " -1 -1";
+            else out << " " << c.id(nd->pred()) << " " << boost::opposite(nd->pred(), v, c.g);
+        }
+        out << " " << tree.first(v);
+    }
+}
+
+static void run_trees(Toks &t, std::ostream &out) {
+    GCase<DGraph> c; read_graph_f(t, c);
+    WMapD wm = boost::get(boost::edge_weight, c.g);
+    auto im = boost::get(boost::vertex_index, c.g);
+    std::vector<TreeD> trees;
+    for (auto vp = boost::vertices(c.g); vp.first != vp.second; ++vp.first)
+        trees.emplace_back(trees.size(), c.g, im, wm, *vp.first);
+    out << "ALL";
+    for (auto &tree : trees) { out << " ; "; print_tree_f(out, c, tree); }
+}
+
+template<class Builder> static void run_builder_f(std::ostream &out, GCase<DGraph> &c) {
+    WMapD wm = boost::get(boost::edge_weight, c.g);
+    std::vector<TreeD> trees; std::vector<CandD> cycles;
+    Builder b;
+    b(c.g, wm, trees, cycles);
+    out << " " << cycles.size();
+    for (auto &cc : cycles)
+        out << " " << trees.at(cc.tree()).source() << " " << c.id(cc.edge()) << " " << hex(cc.weight());
+    out << " T " << trees.size();
+    for (auto &t : trees) {
+        out << " " << t.source();
+        for (auto vp = boost::vertices(c.g); vp.first != vp.second; ++vp.first) {
+            auto nd = t.node(*vp.first);
+            if (nd == nullptr) out << " -2";
+            else if (!nd->has_pred()) out << " -1";
+            else out << " " << c.id(nd->pred());
+        }
+    }
+}
+
+static void run_collections(Toks &t, std::ostream &out) {
+    GCase<DGraph> c; read_graph_f(t, c);
+    out << "H"; run_builder_f<parmcb::detail::HortonCyclesBuilder<DGraph, WMapD>>(out, c);
+    out << " F"; run_builder_f<parmcb::detail::FVSCyclesBuilder<DGraph, WMapD>>(out, c);
+    out << " I"; run_builder_f<parmcb::detail::ISOCyclesBuilder<DGraph, WMapD>>(out, c);
+}
+
+static void run_lookup(Toks &t, std::ostream &out) {
+    typedef boost::graph_traits<DGraph>::edge_descriptor Edge;
+    std::string alg = t.next();
+    size_t q = t.next_sz();
+    std::vector<std::vector<size_t>> sets;
+    for (size_t j = 0; j < q; j++) sets.push_back(t.next_szlist());
+    GCase<DGraph> c; read_graph_f(t, c);
+    WMapD wm = boost::get(boost::edge_weight, c.g);
+    std::vector<TreeD> trees; std::vector<CandD> cycles;
+    if (alg == "fvs") build_sorted<parmcb::detail::FVSCyclesBuilder<DGraph, WMapD>>(out, c, trees, cycles);
+    else if (alg == "iso") build_sorted<parmcb::detail::ISOCyclesBuilder<DGraph, WMapD>>(out, c, trees, cycles);
+    else throw std::runtime_error("bad alg");
+    parmcb::ShortestOddCycleLookup<DGraph, WMapD, false> lookup(c.g, wm, trees, cycles, true);
+    out << " L " << q;
+    for (auto &ids : sets) {
+        std::set<Edge> signed_edges;
+        for (auto i : ids) signed_edges.insert(c.edges.at(i));
+        std::tuple<std::set<Edge>, double, bool> best = lookup(signed_edges);
+        out << (std::get<2>(best) ? " F " : " NF ") << hex(std::get<1>(best)) << " " << std::get<0>(best).size();
+        std::vector<size_t> es; for (auto &e : std::get<0>(best)) es.push_back(c.id(e));
+        std::sort(es.begin(), es.end());
+        for (auto i : es) out << " " << i;
+    }
+}
+
 int main() {
     return run_cases([](Toks &t, std::ostream &out) {
         std::string kind = t.next();
         if (kind == "A") { std::string alg = t.next(); run_alg(alg, t, out); }
         else if (kind == "B") run_bidir(t, out);
+        else if (kind == "T") run_trees(t, out);
+        else if (kind == "C") run_collections(t, out);
+        else if (kind == "L") run_lookup(t, out);
         else throw std::runtime_error("bad kind");
     });
 }
